@@ -6,3 +6,4 @@ pub mod refmodel;
 pub mod report;
 pub mod sweep;
 pub mod families;
+pub mod e2;
